@@ -89,6 +89,15 @@ class SymArena:
             if i: cs.append(z3.ULT(self.at[i - 1], self.at[i]))
         return cs
 
+    def havoc_node(self, n):
+        """an unconstrained node value (what a read outside the modelled component may see)"""
+        h = SymArena(1, pfx='%shv%d_' % (self.pfx, n))
+        # the shared (un-prefixed) names of SymArena would alias slot 0 of the modelled arena: rename them
+        for L in LINKS:
+            h.idx[L] = [z3.BitVec('%shv%d_%s_idx' % (self.pfx, n, L), 64)]; h.lst[L] = [z3.BitVec('%shv%d_%s_st' % (self.pfx, n, L), 16)]
+        h.stamp = [z3.BitVec('%shv%d_stamp' % (self.pfx, n), 16)]; h.nf_idx = [z3.BitVec('%shv%d_nf' % (self.pfx, n), 64)]
+        return h.value(spare=0).f[0].el[0]
+
     def to_real(self, idx1):
         """abstract 1-based slot term -> real 1-based position"""
         if not getattr(self, 'at', None): return idx1
